@@ -15,6 +15,7 @@ def find_lr(lib):
     """The ply LRParser of a fresh hotxlfp.Parser, wherever the object keeps it."""
     import ply.yacc as yacc
     p = lib.Parser()
+    p.parse('1+1')          # tables may be built on first use
     seen = set()
     stack = [p]
     depth = {id(p): 0}
